@@ -28,7 +28,7 @@ import json, sys
 m = json.load(open(sys.argv[2]))
 m['demo_build'] = 'gcc -w -I<wt>/include -I<wt> demo.c <wt>/src/.libs/libsafec.a -o demo ' + sys.argv[4]
 m['confirmed'] = 'harness/seed_intake.sh in a scratch worktree of /repo HEAD: ' + sys.argv[3]
-m['origin'] = 'independent sub-agent given only the property text (round 3)'
+m['origin'] = 'independent sub-agent given only the property text (' + __import__('os').environ.get('SEED_ROUND','round 4') + ')'
 json.dump(m, open(sys.argv[1], 'w'), indent=1)
 PY
 echo "$id: stored"
